@@ -461,3 +461,42 @@ void bad_dec_def__stale_z__ep_read_bin(ep_t a, const uint8_t *bin, size_t len) {
 		return;
 	}
 }
+
+/* ------------------------------------------------------------------ PCK-SIB */
+void ok_pck_sib__ep2_pck(ep2_t r, const ep2_t p) {
+	bn_t h, y;
+	bn_null(h); bn_null(y); bn_new(h); bn_new(y);
+	fp_prime_back(y, p->y[1]);
+	if (bn_is_zero(y)) {
+		fp_prime_back(y, p->y[0]);
+	}
+	fp2_copy(r->x, p->x);
+	fp2_zero(r->y);
+	fp_set_bit(r->y[0], 0, bn_cmp(y, h) == RLC_GT);
+}
+
+int ok_pck_sib__ep2_upk(ep2_t r, const ep2_t p) {
+	bn_t h, y;
+	fp2_t t;
+	bn_null(h); bn_null(y); bn_new(h); bn_new(y);
+	ep2_rhs(t, p->x);
+	fp_prime_back(y, t[1]);
+	if (bn_is_zero(y)) {
+		fp_prime_back(y, t[0]);
+	}
+	if ((bn_cmp(y, h) == RLC_GT) != fp_get_bit(p->y[0], 0)) {
+		fp2_neg(t, t);
+	}
+	fp2_copy(r->y, t);
+	return 1;
+}
+
+/* the compression never looks at y[0]: points with y[1] = 0 come back negated */
+void bad_pck_sib__y1_only__ep2_pck(ep2_t r, const ep2_t p) {
+	bn_t h, y;
+	bn_null(h); bn_null(y); bn_new(h); bn_new(y);
+	fp_prime_back(y, p->y[1]);
+	fp2_copy(r->x, p->x);
+	fp2_zero(r->y);
+	fp_set_bit(r->y[0], 0, bn_cmp(y, h) == RLC_GT);
+}
